@@ -196,7 +196,7 @@ func main() {
 				res.Obls = append(res.Obls, OblResult{Label: label, Kind: kind, Expect: expect, Excuse: excuse})
 				jobs = append(jobs, job{h: res, idx: len(res.Obls) - 1, q: q, expect: expect, model: model, nd: e.nondets})
 			}
-			add("no-panic", "panic", "unsat", buildQuery(finalAssumes, e.panicC), true, "")
+			add("no-panic", "panic", "unsat", buildSliced(finalAssumes, e.panicC), true, "")
 			reachSeen := map[[2]int]bool{}
 			for _, a := range e.asserts {
 				if labelRe != nil && a.Kind != "reach" && !labelRe.MatchString(a.Label) {
@@ -204,12 +204,12 @@ func main() {
 				}
 				switch a.Kind {
 				case "assert":
-					add(a.Label, "violation", "unsat", buildQuery(a.Assumes, a.PC, Not(a.Cond)), true, "")
+					add(a.Label, "violation", "unsat", buildSliced(a.Assumes, a.PC, Not(a.Cond)), true, "")
 				case "except":
-					add(a.Label, "outside-excuse", "unsat", buildQuery(a.Assumes, a.PC, Not(a.Excused), Not(a.Cond)), true, a.Excuse)
-					add(a.Label, "excused", "any", buildQuery(a.Assumes, a.PC, a.Excused, Not(a.Cond)), true, a.Excuse)
+					add(a.Label, "outside-excuse", "unsat", buildSliced(a.Assumes, a.PC, Not(a.Excused), Not(a.Cond)), true, a.Excuse)
+					add(a.Label, "excused", "any", buildSliced(a.Assumes, a.PC, a.Excused, Not(a.Cond)), true, a.Excuse)
 				case "nopanic":
-					add(a.Label, "panic", "unsat", buildQuery(a.Assumes, Not(a.Cond)), true, "")
+					add(a.Label, "panic", "unsat", buildSliced(a.Assumes, Not(a.Cond)), true, "")
 					continue
 				case "reach":
 					add(a.Label, "witness", "sat", buildQuery(a.Assumes, a.PC), true, "")
@@ -218,7 +218,7 @@ func main() {
 				key := [2]int{a.Assumes.id, a.PC.id}
 				if !reachSeen[key] {
 					reachSeen[key] = true
-					add(a.Label, "reach", "sat", buildQuery(a.Assumes, a.PC), false, "")
+					add(a.Label, "reach", "sat", buildSliced(a.Assumes, a.PC), false, "")
 				}
 			}
 		}()
@@ -281,7 +281,18 @@ func main() {
 				t := time.Now()
 				o.Verdict = s.Check(j.q.Script, *timeout)
 				if o.Verdict == "sat" && j.model {
-					o.Model = extractModel(s, j)
+					vals := modelValues(s, j.q, j.nd)
+					if j.q.Rest != nil && j.q.Rest.Const == "" && vals != nil {
+						// complete the model on the sliced-away (variable-disjoint) assumptions
+						if v := s.Check(j.q.Rest.Script, *timeout); v == "sat" {
+							for k, x := range modelValues(s, j.q.Rest, j.nd) {
+								vals[k] = x
+							}
+						} else {
+							o.Verdict = "error:model completion on sliced assumptions: " + v
+						}
+					}
+					o.Model = assembleModel(vals, j)
 				}
 				o.Ms = time.Since(t).Milliseconds()
 				if *solver2 != "" {
@@ -342,20 +353,20 @@ func fatal(err error) {
 	os.Exit(2)
 }
 
-// extractModel reads the values of the nondet variables (creation order) after a sat answer.
-func extractModel(s *Solver, j job) []NondetVal {
+// modelValues reads the values of the nondet variables and string literals of a query after sat.
+func modelValues(s *Solver, q *Query, nd []Nondet) map[string]string {
 	inCone := map[string]bool{}
-	for _, n := range j.q.Names {
+	for _, n := range q.Names {
 		inCone[n] = true
 	}
 	var names []string
-	for _, nd := range j.nd {
-		if inCone[nd.Name] {
-			names = append(names, nd.Name)
+	for _, d := range nd {
+		if inCone[d.Name] {
+			names = append(names, d.Name)
 		}
 	}
 	var litNames []string
-	for n := range j.q.Lits {
+	for n := range q.Lits {
 		litNames = append(litNames, n)
 	}
 	sort.Strings(litNames)
@@ -364,12 +375,20 @@ func extractModel(s *Solver, j job) []NondetVal {
 		var err error
 		vals, err = s.Values(append(append([]string{}, names...), litNames...))
 		if err != nil {
-			return []NondetVal{{Tag: "error", V: err.Error()}}
+			return map[string]string{"@error": err.Error()}
 		}
 	}
-	litOf := map[string]string{} // model atom -> literal text
+	// atom mode: translate model atoms of literals back to their text
 	for _, ln := range litNames {
-		litOf[vals[ln]] = j.q.Lits[ln]
+		vals["@lit:"+vals[ln]] = q.Lits[ln]
+	}
+	return vals
+}
+
+// assembleModel orders the values by nondet creation order (the replay vector).
+func assembleModel(vals map[string]string, j job) []NondetVal {
+	if e, ok := vals["@error"]; ok {
+		return []NondetVal{{Tag: "error", V: e}}
 	}
 	fresh := map[string]string{}
 	var model []NondetVal
@@ -387,9 +406,9 @@ func extractModel(s *Solver, j job) []NondetVal {
 			case !ok:
 				nv.V = ""
 			case strTheory:
-				nv.V = decodeSMTString(v)
+				nv.V = decodeBVStr(v)
 			default:
-				if lit, isLit := litOf[v]; isLit {
+				if lit, isLit := vals["@lit:"+v]; isLit {
 					nv.V = lit
 				} else {
 					if _, seen := fresh[v]; !seen {
